@@ -8,12 +8,12 @@ import (
 	"gonum.org/v1/gonum/mat"
 )
 
-func sizesSmall(g *vlib.G) []int { return vlib.Ints(1, vlib.Pick(g, 4, 6)) }
+func sizesSmall(g *vlib.G) []int { return vlib.Ints(1, vlib.Pick(g, 6, 7)) }
 func sizesBig(g *vlib.G) []int {
-	return vlib.Pick(g, []int{32, 33}, []int{31, 32, 33, 63, 64, 65})
+	return vlib.Pick(g, []int{32, 33, 64}, []int{31, 32, 33, 63, 64, 65})
 }
 func variants(g *vlib.G) int {
-	v := vlib.Pick(g, 1, 2)
+	v := vlib.Pick(g, 2, 3)
 	if g.Seed != 0 {
 		v++
 	}
@@ -27,7 +27,7 @@ func variantID(g *vlib.G, v int) int {
 }
 
 func bigCfg() solveCfg {
-	return solveCfg{nrhs: []int{1, 3}, breps: []string{"dense", "trans"}, vreps: []string{"vec", "vecinc"}, dsts: []string{"empty", "alias"}}
+	return solveCfg{nrhs: []int{1, 3}, breps: []string{"dense", "trans", "user"}, vreps: []string{"vec", "vecinc", "uservec"}, dsts: []string{"empty", "alias"}}
 }
 
 func genLU(g *vlib.G) {
